@@ -183,3 +183,72 @@ func fieldLoadOf(v ssa.Value, name string) (base ssa.Value, ok bool) {
 	}
 	return nil, false
 }
+
+// accessPath follows field selections, loads and element accesses back to the root value:
+// m.Layers[i].Digest -> (root m, [Layers [] Digest]).  A local copy of a parameter is replaced by the parameter.
+func accessPath(v ssa.Value) (ssa.Value, []string) {
+	var rev []string
+	for i := 0; i < 24; i++ {
+		switch x := v.(type) {
+		case *ssa.UnOp:
+			if x.Op != token.MUL {
+				goto done
+			}
+			v = x.X
+		case *ssa.FieldAddr:
+			st := an.Deref(x.X.Type()).Underlying().(*types.Struct)
+			rev = append(rev, st.Field(x.Field).Name())
+			v = x.X
+		case *ssa.Field:
+			st := x.X.Type().Underlying().(*types.Struct)
+			rev = append(rev, st.Field(x.Field).Name())
+			v = x.X
+		case *ssa.IndexAddr:
+			rev = append(rev, "[]")
+			v = x.X
+		case *ssa.Index:
+			rev = append(rev, "[]")
+			v = x.X
+		case *ssa.Extract:
+			// element produced by a range over a slice (next) is not used by go/ssa for slices
+			goto done
+		case *ssa.Alloc:
+			if s := an.SingleStore(x); s != nil {
+				if _, isParam := s.(*ssa.Parameter); isParam {
+					v = s
+					continue
+				}
+				// a local holding a loaded element: `d := slice[i]`
+				if _, isLoad := s.(*ssa.UnOp); isLoad {
+					v = s
+					continue
+				}
+			}
+			goto done
+		case *ssa.ChangeType:
+			v = x.X
+		case *ssa.Convert:
+			v = x.X
+		default:
+			goto done
+		}
+	}
+done:
+	out := make([]string, len(rev))
+	for i := range rev {
+		out[i] = rev[len(rev)-1-i]
+	}
+	return v, out
+}
+
+func pathEq(p []string, q ...string) bool {
+	if len(p) != len(q) {
+		return false
+	}
+	for i := range p {
+		if p[i] != q[i] {
+			return false
+		}
+	}
+	return true
+}
